@@ -262,6 +262,8 @@ func checkC02(p *Program, r *Report) {
 	}
 	base58ByteLookup(p, r, "C02.canon")
 	asciiFoldExact(p, r, "C02.canon", roots)
+	ownPrefixRule(p, r, "C02.net")
+	r.Floor("C02.net", 1)
 }
 
 // regroupRoles recognises the bit-regrouping function: an outer loop with a
